@@ -90,9 +90,16 @@ class MustFlow(object):
             self.exits.append(('raise', s, facts))
             return None
         if isinstance(s, ast.Continue):
+            if not self._ctl:
+                # the body of a loop analysed on its own: `continue` ends this iteration
+                self.exits.append(('continue', s, facts))
+                return None
             self._ctl[-1]['continue'].append(facts)
             return None
         if isinstance(s, ast.Break):
+            if not self._ctl:
+                self.exits.append(('break', s, facts))
+                return None
             self._ctl[-1]['break'].append(facts)
             return None
         if isinstance(s, ast.Expr) and isinstance(s.value, ast.Call) and norm(s.value.func) in self.noreturn:
